@@ -84,6 +84,8 @@ type vfC13Run struct {
 	open bool
 	w    *vfC13World
 
+	defColl bool
+
 	forcedPulls   int
 	excludedSteps int
 }
@@ -149,7 +151,7 @@ func vfC13Case(t *testing.T, rt *rapid.T, rec *kit.Rec, test string, open bool) 
 		rt.Skip()
 	}
 	defer w.Close()
-	r := &vfC13Run{t: t, rt: rt, rec: rec, test: test, open: open, w: w}
+	r := &vfC13Run{t: t, rt: rt, rec: rec, test: test, open: open, w: w, defColl: defColl}
 	r.installAvoidance()
 
 	// ---- initial principals. Monotone: both roles exist before any document; open: maybe not.
